@@ -6,7 +6,10 @@
   simplifiers call it); tau* / mu panic exactly on the `usize` overflow of the global-variable
   index (known finding); the TPTP printer has no panicking numeral after fix ca17dcd; an
   external task that passes the applicability checks reaches `unreachable!()` in the assembly
-  for no role (after fix 3401bdf). NOT expressible in the model: stack depth, allocation
+  for no role (after fix 3401bdf); `external_panic_only_overflow`: the whole external-equivalence
+  pipeline (checks, tau*, placeholders, completion, simplification, outline, assembly) panics only on
+  that overflow - in particular `expect("tau_star did not create a completable theory")` is
+  unreachable (`completion_of_tau_star_exists`). NOT expressible in the model: stack depth, allocation
   failure, hangs, the pest parser's own behaviour — explored with mutated inputs through every
   CLI command by the check. Known findings: numerals / arities beyond the integer type panic in
   the parsers' tree builders; `V18446744073709551615` overflows the global index.
@@ -14,6 +17,7 @@
 import AnthemModel.Proofs.SubstBasic
 import AnthemModel.Model.External
 import AnthemModel.Model.TptpFmt
+import AnthemModel.Proofs.PanicFree
 namespace Anthem.C16
 
 theorem gterm_substPanics_false (t : GTerm) (v : Var) (s : GTerm) (hc : SortCompatible v s) :
@@ -91,5 +95,18 @@ theorem tptp_panic_free (F : Formula) : F.tptpPanics = false := by
   | not f ih => simpa [Formula.tptpPanics] using ih
   | bin c l r ihl ihr => simp [Formula.tptpPanics, ihl, ihr]
   | quant q vs f ih => simpa [Formula.tptpPanics] using ih
+
+/-- the completion of a tau* theory always exists: the `expect` in `theory_translate` cannot fail -/
+theorem completion_of_tau_star_exists (P : Asp.Program) (ins : List Pred) (hp : globalsPanic P = false) :
+    ∃ Γ, completion (tauStar P) ins = some Γ := completion_tauStar_some P ins hp
+
+/-- **The external-equivalence pipeline panics only on the overflow of the global-variable index**
+    of tau* on one of the two programs (the known finding `V18446744073709551615`): no other
+    `expect`, `unwrap` or `unreachable!` of `ExternalEquivalenceTask::decompose`, of the outline
+    construction or of the assembly is reachable, for any task. -/
+theorem external_panic_only_overflow (t : ExternalTask) (fuel : Nat) (s : String)
+    (h : externalProblems t fuel = .panic s) :
+    globalsPanic t.program = true ∨ ∃ PL, t.specification = .inl PL ∧ globalsPanic PL = true :=
+  externalProblems_panic t fuel s h
 
 end Anthem.C16
